@@ -612,6 +612,9 @@ func (e *Engine) prepareExtern(paths []string) (string, map[string]string, error
 			}
 			for i, m := range c.Modifies {
 				inner := m
+				if m == "everything" {
+					continue
+				}
 				if strings.HasPrefix(m, "all(") {
 					inner = m[4 : len(m)-1]
 				}
